@@ -26,6 +26,10 @@ const IMG: usize = 8;
 const MIMG: usize = 16;
 static MODEL_LEN: std::sync::atomic::AtomicUsize = std::sync::atomic::AtomicUsize::new(IMG);
 /// microseconds per model tick of the script being run (set by `setup`)
+thread_local! {
+    /// FB types of the global instances whose members are bound variables (collected while the copies are rendered)
+    static GFB_TYPES: std::cell::RefCell<Vec<String>> = std::cell::RefCell::new(Vec::new());
+}
 static UNIT_US: std::sync::atomic::AtomicI64 = std::sync::atomic::AtomicI64::new(1000);
 const TYPES: [(&str, &[&str]); 5] = [
     ("X", &["BOOL"]),
@@ -191,13 +195,17 @@ fn gen_script(rng: &mut StdRng, always_restart: bool, fbmode: bool) -> J {
             }
             let Some((ob, obit)) = place else { continue };
             let global = rng.gen_bool(0.25);
+            // owner -2: both variables are members of a VAR_GLOBAL function-block instance of their own (directly
+            // addressed members of a global instance; the program calls the instance instead of copying itself)
+            let gfbm = !global && rng.gen_bool(0.12);
             let (iv, ov) = (format!("i{j}_{c}"), format!("o{j}_{c}"));
-            let owner = if global { json!(-1) } else { json!(j) };
-            bindings.push(json!({"var": iv, "area": "I", "size": sz, "byte": ib, "bit": if sz == "X" { ibit } else { 0 }, "ty": ty, "owner": owner}));
-            bindings.push(json!({"var": ov, "area": oarea, "size": sz, "byte": ob, "bit": if sz == "X" { obit } else { 0 }, "ty": ty, "owner": owner}));
+            let owner = if global { json!(-1) } else if gfbm { json!(-2) } else { json!(j) };
+            let gfb = if gfbm { format!("g_{iv}") } else { String::new() };
+            bindings.push(json!({"var": iv, "area": "I", "size": sz, "byte": ib, "bit": if sz == "X" { ibit } else { 0 }, "ty": ty, "owner": owner, "gfb": gfb}));
+            bindings.push(json!({"var": ov, "area": oarea, "size": sz, "byte": ob, "bit": if sz == "X" { obit } else { 0 }, "ty": ty, "owner": owner, "gfb": gfb}));
             vars0.insert(iv.clone(), json!(vec![0; n]));
             vars0.insert(ov.clone(), json!(vec![0; n]));
-            let via = ["stmt", "stmt", "func", "fb"][rng.gen_range(0..4)];
+            let via = if gfbm { "stmt" } else { ["stmt", "stmt", "func", "fb"][rng.gen_range(0..4)] };
             copies.push(json!({"from": iv, "to": ov, "via": via}));
         }
         programs.push(json!({"name": format!("P{j}"), "task": task, "copies": copies}));
@@ -321,9 +329,10 @@ fn gen_script(rng: &mut StdRng, always_restart: bool, fbmode: bool) -> J {
             let val: Vec<u8> = if sz == "X" { vec![rng.gen_range(0..2)] } else { (0..n).map(|_| rng.gen_range(0..=255)).collect() };
             steps.push(json!({"a": "DirectWrite", "addr": {"area": area, "size": sz, "byte": b, "bit": if sz == "X" { bit } else { 0 }}, "val": val}));
         }
-        if dbg_run && !bindings.is_empty() && rng.gen_bool(0.25) {
+        let writable: Vec<&J> = bindings.iter().filter(|b| b["owner"] != json!(-2)).collect();
+        if dbg_run && !writable.is_empty() && rng.gen_bool(0.25) {
             // a debugger write to a bound variable (applied at the next cycle boundary)
-            let b = &bindings[rng.gen_range(0..bindings.len())];
+            let b = writable[rng.gen_range(0..writable.len())];
             let n = nbytes(b["size"].as_str().unwrap());
             let val: Vec<u8> = if b["size"] == "X" { vec![rng.gen_range(0..2)] } else { (0..n).map(|_| rng.gen_range(0..=255)).collect() };
             steps.push(json!({"a": "DebugVarWrite", "var": b["var"], "val": val}));
@@ -421,6 +430,11 @@ pub fn render_source(cfg: &J) -> String {
     }
     src.push_str(" elog : ARRAY[0..31] OF INT;\n lgn : INT := INT#0;\n inj : INT := INT#0;\n zero : INT := INT#0;\n");
     let bindings = cfg["bindings"].as_array().unwrap();
+    GFB_TYPES.with(|g| g.borrow_mut().clear());
+    for b in bindings.iter().filter(|b| b["owner"] == json!(-2) && b["area"] == "I") {
+        let g = b["gfb"].as_str().unwrap();
+        src.push_str(&format!(" {g} : T{g};\n"));
+    }
     for b in bindings.iter().filter(|b| (b["owner"] == json!(-1))) {
         src.push_str(&format!(" {} AT {} : {};\n", b["var"].as_str().unwrap(),
             addr_text(b["area"].as_str().unwrap(), b["size"].as_str().unwrap(), b["byte"].as_u64().unwrap(), b["bit"].as_u64().unwrap()),
@@ -539,6 +553,11 @@ pub fn render_source(cfg: &J) -> String {
             ));
         }
     }
+    GFB_TYPES.with(|g| {
+        for t in g.borrow().iter() {
+            src.push_str(t);
+        }
+    });
     for ty in helper_types {
         src.push_str(&format!(
             "FUNCTION FCopy_{ty} : {ty}\nVAR_INPUT x : {ty}; fire : BOOL; z : INT; END_VAR\nVAR t : INT; END_VAR\nIF fire THEN t := INT#1 / z; END_IF;\nFCopy_{ty} := x;\nEND_FUNCTION\n"
@@ -564,6 +583,16 @@ fn render_copies(copies: &[J], base: usize, bindings: &[J], decls: &mut String, 
             ext.push_str(&format!(" {from} : {ty}; {to} : {ty};"));
         }
         let code = base + k + 1;
+        if let Some(b) = bindings.iter().find(|b| b["var"] == from && b["owner"] == json!(-2)) {
+            let g = b["gfb"].as_str().unwrap();
+            let bo = bindings.iter().find(|x| x["var"] == to).unwrap();
+            let at = |x: &J| addr_text(x["area"].as_str().unwrap(), x["size"].as_str().unwrap(), x["byte"].as_u64().unwrap(), x["bit"].as_u64().unwrap());
+            GFB_TYPES.with(|t| t.borrow_mut().push(format!(
+                "FUNCTION_BLOCK T{g}\nVAR_EXTERNAL inj : INT; zero : INT; END_VAR\nVAR\n  {from} AT {} : {ty};\n  {to} AT {} : {ty};\n  zz : INT;\nEND_VAR\nIF inj = INT#{code} THEN zz := INT#1 / zero; END_IF;\n{to} := {from};\nEND_FUNCTION_BLOCK\n", at(b), at(bo))));
+            ext.push_str(&format!(" {g} : T{g};"));
+            body.push_str(&format!("{g}();\n"));
+            continue;
+        }
         match c["via"].as_str().unwrap() {
             "func" => {
                 helper_types.insert(ty.clone());
@@ -739,7 +768,16 @@ fn project(h: &TestHarness, cfg: &J) -> J {
     let mut vars = Map::new();
     let mut tags = Map::new();
     for k in cfg["vars0"].as_object().unwrap().keys() {
-        let v = h.get_output(k).unwrap_or(Value::Null);
+        let gfb = cfg["bindings"].as_array().unwrap().iter().find(|b| b["var"] == json!(k.as_str())).and_then(|b| b["gfb"].as_str()).unwrap_or("");
+        let v = if gfb.is_empty() {
+            h.get_output(k).unwrap_or(Value::Null)
+        } else {
+            // a member of a global FB instance, read through the global (a disconnected instance shows)
+            match h.runtime().storage().get_global(gfb) {
+                Some(Value::Instance(id)) => h.runtime().storage().get_instance_var(*id, k).cloned().unwrap_or(Value::Null),
+                _ => Value::Null,
+            }
+        };
         vars.insert(k.clone(), json!(le_bytes(&v).unwrap_or_default()));
         tags.insert(k.clone(), json!(tag(&v)));
     }
